@@ -18,6 +18,7 @@ KNOBS = {
     "color.ui":                 [("global", "color.ui", "always")],
     "color.diff":               [("global", "color.diff", "always")],
     "diff.renames":             [("global", "diff.renames", "copies")],
+    "diff.renames.false":       [("global", "diff.renames", "false")],
     "diff.algorithm.histogram": [("repo", "diff.algorithm", "histogram")],
     "diff.algorithm.patience":  [("global", "diff.algorithm", "patience")],
     "diff.algorithm.minimal":   [("global", "diff.algorithm", "minimal")],
@@ -161,13 +162,22 @@ class Scenario:
         self.base = {f: gen_lines(rng, rng.randint(6, 14), f"b{k}_") for k, f in enumerate(self.files)}
         # a low-entropy file: Myers / patience / histogram align it differently (numstat and hunks differ)
         self.base["rep.txt"] = [rng.choice(LOW) for _ in range(rng.randint(8, 14))]
+        # a lock file under a non-ASCII directory: ignored by the default stats ignore patterns, C-quoted by git
+        self.lock = rng.choice(["ünï/deps.lock", "dir é/Cargo.lock"])
+        self.base[self.lock] = gen_lines(rng, 5, "lock_")
+        # a file that a side branch renames and main cherry-picks
+        self.base["cp.txt"] = gen_lines(rng, 12, "cp_")
+        # the root commit itself contains AI work (made through the proxy)
+        self.root_ai = ("ai", "sess0", "a/b.txt", edit_lines(rng, self.base["a/b.txt"], "s0_", "AI"))
         self.steps = []
         cur = {f: list(v) for f, v in self.base.items()}
+        cur["a/b.txt"] = self.root_ai[3]
         # step 1: AI edits file0 (+ maybe file3), human edits file1; commit all
         s = {"kind": "commit_all", "edits": []}
         new = edit_lines(rng, cur[self.files[0]], "s1_", "AI"); s["edits"].append(("ai", "sess1", self.files[0], new)); cur[self.files[0]] = new
         new = edit_lines(rng, cur[self.files[1]], "h1_", "HUMAN"); s["edits"].append(("human", None, self.files[1], new)); cur[self.files[1]] = new
         new = shuffle_lines(rng, cur["rep.txt"]); s["edits"].append(("human", None, "rep.txt", new)); cur["rep.txt"] = new
+        new = edit_lines(rng, cur[self.lock], "hl_", "HUMAN"); s["edits"].append(("human", None, self.lock, new)); cur[self.lock] = new
         if rng.random() < 0.6:
             new = edit_lines(rng, cur[self.files[3]], "s1b_", "AI"); s["edits"].append(("ai", "sess1", self.files[3], new)); cur[self.files[3]] = new
         self.steps.append(s)
@@ -197,6 +207,16 @@ class Scenario:
         self.amend_edit = ("ai", "sess5", "a/b.txt", edit_lines(rng, cur["a/b.txt"], "s5_", "AI"))
         cur["a/b.txt"] = self.amend_edit[3]
         self.steps.append(s)
+        # step 6: a side branch (from the first commit after the root) renames cp.txt and lets an AI session add
+        # lines to it; main changes the tail of cp.txt (so the cherry-picked tree differs: slow rewrite path) and
+        # cherry-picks the side commit
+        base_cp = list(self.base["cp.txt"])
+        side = base_cp[:4] + [f"AI side s6_{i}" for i in range(rng.randint(2, 4))] + base_cp[4:]
+        main_cp = base_cp[:-1] + ["HUMAN main changed the tail"]
+        self.cp_renamed = rng.choice(["cp renamed.txt", "moved/cp.txt"])
+        self.steps.append({"kind": "cherry_pick", "side": side, "main": main_cp, "to": self.cp_renamed, "edits": []})
+        cur.pop("cp.txt")
+        cur[self.cp_renamed] = side[:-1] + ["HUMAN main changed the tail"]
         self.final = cur
 
     def describe(self):
@@ -268,18 +288,23 @@ class Runner:
                 self.trace_path = os.path.join(env.root, "trace.jsonl")
                 env.env["GIT_AI_VERIF_TRACE"] = self.trace_path
             main = env.repo("repo")
-            # base commit (plain human work, before any knob: identical objects in every run)
+            self.repo = main
+            apply_knobs(env, main, self.knobs)
+            # root commit: human files plus one AI edit, committed through the proxy from the repository root
+            ctx, self.context = self.context, "root"
             for f, lines in sc.base.items():
                 main.write(f, text_of(lines))
             main.write("src/.keep", "")
-            main.plain_git("add", "-A", check=True)
-            main.plain_git("commit", "-q", "-m", "base", check=True)
+            self.apply_edit(main, sc.root_ai)
+            self.g(main, "add", "-A", "--", ".")
+            self.g(main, "commit", "-q", "-m", "root")
+            self.context = ctx
             r = main
             if self.context == "worktree":
                 wt = os.path.join(env.root, "linked wt")
                 main.plain_git("worktree", "add", "-q", "-b", "wtbranch", wt, check=True)
                 r = e2e.Repo(env, wt)
-            apply_knobs(env, r, self.knobs)
+            self.repo = r
             self.repo = r
             for s in sc.steps:
                 self.do_step(r, s)
@@ -319,6 +344,24 @@ class Runner:
         elif s["kind"] == "partial":
             self.g(r, "add", "--", *s["stage"])
             self.g(r, "commit", "-q", "-m", "partial")
+        elif s["kind"] == "cherry_pick":
+            rc, out, _ = r.plain_git("rev-list", "--reverse", "HEAD")
+            first = out.split()[1]
+            rc, out, _ = r.plain_git("symbolic-ref", "--short", "HEAD")
+            branch = out.strip()
+            self.g(r, "checkout", "-q", "-b", "side-" + branch, first)
+            os.makedirs(os.path.dirname(os.path.join(r.path, s["to"])) or r.path, exist_ok=True)
+            self.g(r, "mv", "--", "cp.txt", s["to"])
+            self.apply_edit(r, ("ai", "sess6", s["to"], s["side"]))
+            self.g(r, "add", "-A", "--", ".")
+            self.g(r, "commit", "-q", "-m", "side: rename + ai")
+            rc, out, _ = r.plain_git("rev-parse", "HEAD")
+            side_sha = out.strip()
+            self.g(r, "checkout", "-q", branch)
+            self.apply_edit(r, ("human", None, "cp.txt", s["main"]))
+            self.g(r, "add", "-A", "--", ".")
+            self.g(r, "commit", "-q", "-m", "main: tail of cp")
+            self.g(r, "cherry-pick", side_sha)
         elif s["kind"] == "amend":
             self.g(r, "add", "-A", "--", ".")
             self.g(r, "commit", "-q", "-m", "before amend")
@@ -340,6 +383,29 @@ class Runner:
                 stats[idx[c]] = json.loads(out)
             except Exception:
                 stats[idx[c]] = {"error": f"rc={rc} {err.strip()[-200:]} {out[:100]}"}
+        # a note whose prompt record lives in another commit's note (as after stripping / foreign clients): blame
+        # then has to find the prompt through `git grep` over refs/notes/ai
+        foreign = None
+        if len(commits) > 3:
+            cand = []
+            for x, y in ((commits[2], commits[3]), (commits[3], commits[2])):
+                tx, ty = r.note_text(x), r.note_text(y)
+                if not tx or not ty or "\n---\n" not in tx or "\n---\n" not in ty:
+                    continue
+                hx, _, mx = tx.partition("\n---\n")
+                _, _, my = ty.partition("\n---\n")
+                try:
+                    jx, jy = json.loads(mx), json.loads(my)
+                except Exception:
+                    continue
+                shared = set(jx.get("prompts", {})) & set(jy.get("prompts", {}))
+                if shared and any(h in hx for h in shared):
+                    cand.append((x, hx, jx))
+            if cand:
+                x, hx, jx = cand[0]
+                jx["prompts"] = {}
+                r.plain_git("notes", "--ref=ai", "add", "-f", "-m", hx + "\n---\n" + json.dumps(jx, indent=2), x, check=True)
+                foreign = idx[x]
         blames = {}
         for f in sorted(self.sc.final):
             cwd = self._obs_cwd(r)
@@ -350,7 +416,7 @@ class Runner:
             except Exception:
                 blames[f] = {"error": f"rc={rc} {err.strip()[-200:]} {out[:100]}"}
         # also the plain (non-JSON) blame of one file, hashes and names only
-        return {"commits": len(commits), "notes": notes, "blame": blames, "stats": stats}
+        return {"commits": len(commits), "notes": notes, "blame": blames, "stats": stats, "foreign_prompt_note": foreign}
 
     def _obs_cwd(self, r):
         return os.path.join(r.path, "src") if self.context == "subdir" else r.path
